@@ -268,6 +268,48 @@ def check_default(col, kind, plist):
                               f"with total_bounds=arr.total_bounds {got_tb.tolist()}")
 
 
+def check_wide(col, kind, plist):
+    """bounding boxes (nearly) symmetric about the origin and enormously wider than total_bounds: min + max is exact (the centre
+    is 0.5, 0.25 or 1), max - min is not representable"""
+    if kind == "point":
+        return
+    W = 2 ** 52
+    boxes = [((-W, -W // 2, W + 1, W // 2 + 1), (Fraction(1, 2), Fraction(1, 2))),
+             ((-W + 2, -W, W, W + 1), (Fraction(1), Fraction(1, 2))),
+             ((-W, -W, W, W), (Fraction(0), Fraction(0))),
+             ((-W // 2, -W + 1, W // 2 + 0.5, W), (Fraction(1, 4), Fraction(1, 2)))]
+    tb = (0, 0, 1, 1)
+    elems, centres = [], []
+    for (x0, y0, x1, y1), c in boxes:
+        corners = ((float(x0), float(y0)), (float(x1), float(y1)))
+        if kind in ("multipoint", "line"):
+            e = corners
+        elif kind == "ring":
+            e = (corners[0], (corners[1][0], corners[0][1]), corners[1], corners[0])
+        elif kind == "multiline":
+            e = (corners,)
+        elif kind == "polygon":
+            e = ((corners[0], (corners[1][0], corners[0][1]), corners[1], (corners[0][0], corners[1][1]), corners[0]),)
+        else:
+            e = (((corners[0], (corners[1][0], corners[0][1]), corners[1], (corners[0][0], corners[1][1]), corners[0]),),)
+        elems.append(e)
+        centres.append(c)
+    arr = L.make_array(kind, elems, "float64")
+    case0 = {"kind": kind, "total_bounds": list(tb), "wide": True}
+    for p in plist:
+        col.count("evaluations", len(elems))
+        exp = np.array([xy2d(p, expected_cell(cx, 0, 1, p), expected_cell(cy, 0, 1, p)) for cx, cy in centres], dtype=np.int64)
+        try:
+            got = np.asarray(arr.hilbert_distance(total_bounds=(0.0, 0.0, 1.0, 1.0), p=p))
+        except Exception as ex:
+            col.violation("wide.raises", dict(case0, p=p), f"{type(ex).__name__}: {str(ex)[:200]}")
+            continue
+        if (got != exp).any():
+            k = int(np.nonzero(got != exp)[0][0])
+            col.violation("wide.wrong_distance", dict(case0, p=p, index=k),
+                          f"bbox {boxes[k][0]} (centre {float(centres[k][0])},{float(centres[k][1])}) in bounds {tb} p={p}: got {int(got[k])} expected {int(exp[k])}")
+
+
 def run(ctx):
     from spatialpandas.spatialindex import hilbert_curve as hc
     # validate the independent reference against C07-style clauses on a small grid
@@ -291,6 +333,7 @@ def run(ctx):
         pl = plist if (ctx.thorough or kind in ("point", "polygon")) else [1, 2, 3, 5, 10, 15, 16, 20, 30, 31]
         if s == "default":
             check_default(col, kind, pl)
+            check_wide(col, kind, pl)
         else:
             check_scene(col, kind, SCENES[s], pl, ctx.seed)
 
@@ -304,7 +347,15 @@ def run(ctx):
                        "reference curve = textbook xy2d, itself checked for bijection and end points"]
 
 
+def replay_wide(ctx, case):
+    col = core.Collector()
+    check_wide(col, case["kind"], [case["p"]])
+    return col.violations
+
+
 def replay(ctx, case):
+    if case.get("wide"):
+        return replay_wide(ctx, case)
     col = core.Collector()
     if "default_bounds" in case:
         check_default(col, case["kind"], [case["p"]])
